@@ -305,6 +305,32 @@ pub fn run(ctx: &Ctx) -> Report {
 			}
 		}
 	}
+	// cross-type construction routes (TryFrom / try_into / as_* between the eight URI/IRI types):
+	// every valid IRI reference of RAW(n); success exactly when the target grammar accepts the text
+	{
+		use crate::model::{domains, syntax, FamRefs};
+		let fr_uri = FamRefs::new(refs, Family::Uri);
+		let alpha = domains::raw_alphabet(Family::Iri, 0);
+		let d = refs.dfa(Family::Iri, Kind::RiRef);
+		let n = ctx.pick(5usize, 6usize);
+		let r = run_shards(ctx, domains::raw_shard_count(alpha.len()), |si| {
+			let mut r = Report::new();
+			let mut vs = Vec::new();
+			domains::for_each_raw(&alpha, n, si, |t| {
+				if !ref_valid(&d, Family::Iri, Kind::RiRef, t) {
+					return;
+				}
+				r.traces += 1;
+				r.evaluations += super::c13::conv_case_for("C01", t, fr_uri.valid(Kind::Ri, t), fr_uri.valid(Kind::RiRef, t), syntax::split(t).scheme.is_some(), &mut vs);
+				for v in vs.drain(..) {
+					r.violate(v);
+				}
+			});
+			r
+		});
+		total.count("cross_type_route_inputs", r.traces);
+		total.merge(r);
+	}
 	total.info.insert("per_type".into(), Value::Object(per_type));
 	total.info.insert("config".into(), json!(config_name()));
 	if let Ok(c) = std::env::var("VERIF_C01_COLD") {
@@ -318,6 +344,13 @@ pub fn run(ctx: &Ctx) -> Report {
 pub fn replay(ctx: &Ctx, check: &str, input: &Value) -> Vec<Violation> {
 	let refs = Refs::new(&ctx.root);
 	let mut out = Vec::new();
+	if check == "conversion" {
+		if let Some(t) = json_bytes(&input["text"]) {
+			let fr_uri = crate::model::FamRefs::new(refs, Family::Uri);
+			super::c13::conv_case_for("C01", &t, fr_uri.valid(Kind::Ri, &t), fr_uri.valid(Kind::RiRef, &t), crate::model::syntax::split(&t).scheme.is_some(), &mut out);
+		}
+		return out;
+	}
 	let (f, k, b) = match (super::input_family(input), input["kind"].as_str().and_then(Kind::parse), json_bytes(&input["text"])) {
 		(Some(f), Some(k), Some(b)) => (f, k, b),
 		_ => return out,
